@@ -36,6 +36,18 @@ up to a whole number — the one case `glue_rc_image` excludes by its hypothesis
 (finding F22: Python `round(1.5 + 1.0) = 2`).  Anything else is a VIOLATION.  Result order
 is never gated.  Hand-made inputs outside the quantifier on which the pinned code fails the
 specification (PROBES) are only counted.
+
+Streams: regress, probes, corpus, synthetic, `_explicit_h` unit level, and (anchor-coverage driven)
+  entry  the documented alternative entry points and options on corpus reactions: template as ITS graph / reaction SMILES
+         string (`_wrap_template` parses it) / caller-built `SynRule` (also canon=False, `from_smart`, `from_gml`);
+         substrate as SMILES / networkx graph / the same graph renumbered with shuffled insertion order / `SynGraph`
+         (with and without canonical form); constructor `from_smiles`; options explicit_h=False on an explicit-H
+         template (clause (c) then against the hydrogen-normal form of the template, computed by the harness from the
+         template alone), automorphism, embed_threshold, embed_pre_filter, an own canonicaliser.  Same stage-wise
+         comparison and the same Lean specification as every other stream; nothing is taken from the code under test.
+  hand   seven small explicit-H templates with a bare proton / hydride / H2 (hydrogens SynRule must keep explicit:
+         `_removable_on` "no neighbours", `h_to_implicit` leaving a lone hydrogen in the pattern), centre and full ITS,
+         forward and backward.
 """
 import json
 
@@ -82,7 +94,14 @@ MAX_REMAPS = 4      # explicit re-matches per mapping compared stage-wise
 MAX_ITS = 40        # outputs per case evaluated by the specification
 MAX_STORED = 40     # violations kept per kind (the rest is counted)
 
-CASE_KEYS = ("rsmi", "core", "tpl_graph", "sub", "host_graph", "invert", "strategy", "mode", "outside")
+CASE_KEYS = ("rsmi", "core", "tpl_graph", "sub", "host_graph", "invert", "strategy", "mode", "outside",
+             "tform", "sform", "skey", "ctor", "kw", "canon_arg")
+
+# Entry-point / option variation (stream `entry`, adapter `reactor_case_x`).  A case without any of these keys
+# goes through the shared adapter `reactor_common.reactor_case` unchanged.
+FORM_KEYS = ("tform", "sform", "skey", "ctor", "kw", "canon_arg")
+TFORMS = ("graph", "str", "synrule", "synrule_nocanon", "from_smart", "from_gml")
+SFORMS = ("smiles", "graph", "graph_shuffled", "syngraph", "syngraph_nocanon")
 
 # Hand-made inputs OUTSIDE the property's quantifier (not corpus-derived) on which the pinned code does
 # not meet the specification.  They are run on every tier: the stage-wise comparison with the model
@@ -186,6 +205,84 @@ def corpus_cases(ctx, pool, reactions, strategies_own, n_foreign):
                     cases.append({"rsmi": r["rsmi"], "core": core, "sub": o[side], "invert": inv,
                                   "strategy": ctx.rnd.choice(["all", "comp", "bt"]), "mode": r["mode"],
                                   "tag": f"{r['src']}#{r['idx']}", "kind": "foreign"})
+    return cases
+
+
+def entry_cases(ctx, reactions, per_form=1):
+    """Stream `entry`: the documented alternative entry points and non-default options of SynReactor / SynRule on corpus
+    reactions (substrate: the side the template is applied to, or -- 40% -- reactants and products together, on which the
+    template matches in either orientation, so that a forgotten inversion produces outputs).  Every applicable template form is used `per_form` times for every chosen reaction; the
+    substrate forms are dealt round-robin from a random start, so that every form occurs on every run whatever the seed."""
+    rnd = ctx.rnd
+    cases = []
+    si = rnd.randrange(len(SFORMS))
+    for r in reactions:
+        for tform in TFORMS:
+            if tform == "from_gml" and r["mode"] != "explicit":
+                continue        # GML carries no hydrogen counts: an implicit-H template does not survive it
+            for _ in range(per_form):
+                inv = rnd.random() < 0.5
+                core = False if tform in ("str", "from_smart") else rnd.random() < 0.5
+                sform = SFORMS[si % len(SFORMS)]
+                si += 1
+                own = r["products"] if inv else r["reactants"]
+                both = rnd.random() < 0.4      # both sides together: the template matches in either orientation
+                ctx.count("entry:substrate=" + ("reactants+products" if both else "own side"))
+                c = {"rsmi": r["rsmi"], "core": core, "sub": (r["reactants"] + "." + r["products"]) if both else own, "invert": inv,
+                     "strategy": rnd.choice(["all", "comp", "bt"]), "mode": r["mode"], "tag": f"{r['src']}#{r['idx']}",
+                     "kind": "entry", "tform": tform, "sform": sform}
+                if sform == "graph_shuffled":
+                    c["skey"] = rnd.randrange(1 << 30)
+                if sform == "smiles" and rnd.random() < 0.5:
+                    c["ctor"] = "from_smiles"
+                kw = {}
+                if r["mode"] == "explicit" and rnd.random() < 0.35:
+                    kw["explicit_h"] = False
+                if rnd.random() < 0.2:
+                    kw["automorphism"] = True
+                if c.get("ctor") != "from_smiles":
+                    if rnd.random() < 0.2:
+                        kw["embed_pre_filter"] = True
+                    if rnd.random() < 0.2:
+                        kw["embed_threshold"] = rnd.choice([50, 5000])
+                if kw:
+                    c["kw"] = kw
+                if rnd.random() < 0.25:
+                    c["canon_arg"] = True
+                ctx.count("entry:tform=" + tform)
+                ctx.count("entry:sform=" + sform)
+                ctx.count("entry:ctor=" + c.get("ctor", "init"))
+                for k, v in sorted(kw.items()):
+                    ctx.count(f"entry:option:{k}={v}")
+                if c.get("canon_arg"):
+                    ctx.count("entry:option:canonicaliser=own")
+                cases.append(c)
+    return cases
+
+
+# Small hand-written explicit-H templates whose rule keeps explicit hydrogens that cannot be folded into a count: a bare
+# proton / hydride (no neighbour on one side: `_removable_on` -> False for "no neighbours") and H2, also next to an X-H bond
+# of the pattern (`h_to_implicit` has to leave the lone hydrogen in place).  No corpus reaction small enough for the quick
+# tier has them.  (template reaction, reactants, products)
+HAND = [
+    ("[CH3:1][OH:2].[H+:3]>>[CH3:1][OH+:2][H:3]", "CO.[H+]", "C[OH2+]"),
+    ("[H:1][C:2](=[O:3])[O-:4].[H+:5]>>[O:3]=[C:2]=[O:4].[H:1][H:5]", "O=C[O-].[H+]", "O=C=O.[H][H]"),
+    ("[H:1][B-:2]([F:3])([F:4])[F:5].[H+:6]>>[H:1][H:6].[B:2]([F:3])([F:4])[F:5]", "F[BH-](F)F.[H+]", "FB(F)F.[H][H]"),
+    ("[CH3:1][C:2](=[O:3])[O:4][H:5]>>[CH3:1][C:2](=[O:3])[O-:4].[H+:5]", "CC(=O)O", "CC(=O)[O-].[H+]"),
+    ("[CH3:1][O-:2].[H:3][H:4]>>[CH3:1][O:2][H:3].[H-:4]", "C[O-].[H][H]", "CO.[H-]"),
+    ("[CH2:1]=[CH2:2].[H:3][H:4]>>[CH2:1]([H:3])[CH2:2][H:4]", "C=C.[H][H]", "CC"),
+    ("[CH3:1][N:2]([CH3:3])[CH3:4].[H+:5]>>[CH3:1][N+:2]([CH3:3])([CH3:4])[H:5]", "CN(C)C.[H+]", "C[NH+](C)C"),
+]
+
+
+def hand_cases(ctx, all_strategies):
+    cases = []
+    for i, (rsmi, r, p) in enumerate(HAND):
+        for core in (True, False):
+            for inv in (False, True):
+                for st in (["all", "comp", "bt"] if all_strategies else [ctx.rnd.choice(["all", "comp", "bt"])]):
+                    cases.append({"rsmi": rsmi, "core": core, "sub": p if inv else r, "invert": inv, "strategy": st,
+                                  "mode": "explicit", "tag": f"hand#{i}", "kind": "hand"})
     return cases
 
 
@@ -354,6 +451,194 @@ def run_explicit_h_unit(ctx, n):
                        {"explicit_h_unit": c["its"]}, {"first_difference": diff}, no_input=True)
 
 
+# ------------------------------------------------------------------ entry points and options
+def fold_explicit_h(tpl):
+    """Hydrogen-normal form of a template ITS, computed from the template alone (independent of SynRule): every explicit
+    hydrogen bonded to a heavy atom on BOTH sides is folded into the hydrogen counts of `typesGH` (reactant-side heavy
+    neighbours gain one on the left, product-side ones on the right) and removed.
+    -> (folded graph, complete: no explicit hydrogen is left)"""
+    import copy
+
+    g = copy.deepcopy(tpl)
+
+    def heavy(h, side):
+        out = []
+        for w in g.neighbors(h):
+            o = g[h][w].get("order", (1.0, 1.0))
+            if g.nodes[w].get("element") != "H" and isinstance(o, (tuple, list)) and o[side] > 0:
+                out.append(w)
+        return sorted(out)
+
+    def bump(w, side):
+        t = [list(x) for x in g.nodes[w]["typesGH"]]
+        t[side][2] += 1
+        g.nodes[w]["typesGH"] = tuple(tuple(x) for x in t)
+        if side == 0 and "hcount" in g.nodes[w]:
+            g.nodes[w]["hcount"] += 1
+
+    complete = True
+    for h in [n for n, d in g.nodes(data=True) if d.get("element") == "H"]:
+        L, R = heavy(h, 0), heavy(h, 1)
+        if not L or not R:
+            complete = False
+            continue
+        for w in L:
+            bump(w, 0)
+        for w in R:
+            bump(w, 1)
+        g.remove_node(h)
+    return g, complete
+
+
+def reactor_case_x(case):
+    """`reactor_common.reactor_case` with the documented alternative entry points and options of `SynReactor`:
+
+      tform  how the template reaches the reactor: "graph" (ITS graph, as in the other streams) | "str" (the reaction
+             SMILES itself: `_wrap_template` parses it) | "synrule" / "synrule_nocanon" (a `SynRule` the caller built, with
+             the hydrogen handling of the mode; `canon=False` for the second) | "from_smart" (`SynRule.from_smart`) |
+             "from_gml" (`SynRule.from_gml` of the template's GML; GML carries no hydrogen counts, so explicit mode only)
+      sform  how the substrate reaches it: "smiles" | "graph" (networkx graph) | "graph_shuffled" (the same graph with new
+             non-contiguous ids and a shuffled insertion order, from the derived PRNG `Random(skey)`) | "syngraph" |
+             "syngraph_nocanon" (`SynGraph` with / without canonical form)
+      ctor   "init" | "from_smiles" (the alternate constructor; substrate as SMILES)
+      kw     constructor options overriding the mode's (e.g. explicit_h=False for an explicit-H template, embed_threshold,
+             embed_pre_filter, automorphism);  canon_arg: pass an own GraphCanonicaliser
+    The record has the fields of `reactor_case`; `tpl` is always the template as an ITS graph built by the harness (what the
+    specification compares the outputs with), whatever form the reactor was given."""
+    if not any(k in case for k in FORM_KEYS):
+        return rc.reactor_case(case)
+    rc._quiet()
+    import copy
+    import random
+
+    import networkx as nx
+    from synkit.IO import rsmi_to_its
+    from synkit.IO.chem_converter import smiles_to_graph, its_to_gml
+    from synkit.Synthesis.Reactor.syn_reactor import SynReactor
+    from synkit.Synthesis.Reactor.strategy import Strategy
+    from synkit.Graph.Hyrogen._misc import has_XH, h_to_implicit
+    from synkit.Graph.syn_graph import SynGraph
+    from synkit.Graph.canon_graph import GraphCanonicaliser
+    from synkit.Rule import SynRule
+    from .. import graphio
+
+    rec = {"status": "ok"}
+    tform, sform, ctor = case.get("tform", "graph"), case.get("sform"), case.get("ctor", "init")
+    kw = dict(rc.mode_kwargs(case["mode"]))
+    kw.update(case.get("kw") or {})
+    if case.get("canon_arg"):
+        kw["canonicaliser"] = GraphCanonicaliser()
+    implicit_h = not kw.get("implicit_temp", False)
+    try:
+        if "tpl_graph" in case:
+            tpl = graphio.to_nx(case["tpl_graph"])
+        else:
+            tpl = rsmi_to_its(case["rsmi"], core=case["core"])
+        if tform == "graph":
+            targ = copy.deepcopy(tpl)
+        elif tform == "str":
+            targ = case["rsmi"]
+        elif tform == "synrule":
+            targ = SynRule(copy.deepcopy(tpl), implicit_h=implicit_h)
+        elif tform == "synrule_nocanon":
+            targ = SynRule(copy.deepcopy(tpl), canon=False, implicit_h=implicit_h)
+        elif tform == "from_smart":
+            targ = SynRule.from_smart(case["rsmi"], implicit_h=implicit_h)
+        elif tform == "from_gml":
+            targ = SynRule.from_gml(its_to_gml(copy.deepcopy(tpl), core=False), implicit_h=implicit_h)
+        else:
+            return {"status": "template-error:unknown-tform"}
+    except Exception as e:  # template cannot be built: not a reactor case
+        return {"status": "template-error:" + type(e).__name__}
+    rec["tpl"] = rc.enc_graph(tpl)
+    try:
+        rec["rule_check_tpl"] = rec["tpl"]
+        if implicit_h:
+            folded, complete = fold_explicit_h(tpl)
+            rec["rule_check_tpl"] = rc.enc_graph(folded)   # SynRule folds exactly these hydrogens
+            if not kw.get("explicit_h", True):
+                # hydrogens stay implicit in the outputs: clause (c) is evaluated against the hydrogen-normal form of the
+                # template (only when that form is unambiguous: no H2 / H+ / hydride in the template)
+                if complete:
+                    rec["tpl_spec"] = rc.enc_graph(folded)
+                else:
+                    rec["spec_c_skip"] = True
+        if "host_graph" in case:
+            sub = graphio.to_nx(case["host_graph"])
+            sform = sform or "graph"
+        else:
+            sub = case["sub"]
+            sform = sform or "smiles"
+        if sform != "smiles" and isinstance(sub, str):
+            sub = smiles_to_graph(sub, use_index_as_atom_map=False, drop_non_aam=False)
+        if sform == "graph_shuffled":
+            r = random.Random(case.get("skey", 0))
+            old = list(sub.nodes())
+            new = r.sample(range(1, 3 * len(old) + 5), len(old))
+            ren = dict(zip(old, new))
+            order = list(old)
+            r.shuffle(order)
+            g = nx.Graph()
+            for n in order:
+                g.add_node(ren[n], **copy.deepcopy(sub.nodes[n]))
+            edges = list(sub.edges(data=True))
+            r.shuffle(edges)
+            for u, v, d in edges:
+                if r.random() < 0.5:
+                    u, v = v, u
+                g.add_edge(ren[u], ren[v], **copy.deepcopy(d))
+            sub = g
+        elif sform == "syngraph":
+            sub = SynGraph(sub, GraphCanonicaliser())
+        elif sform == "syngraph_nocanon":
+            sub = SynGraph(sub, canon=False)
+        if case["invert"]:
+            rec["inverted"] = rc.enc_graph(SynReactor._invert_template(copy.deepcopy(tpl), balance_its=bool(kw.get("implicit_temp"))))
+        if ctor == "from_smiles":
+            re = SynReactor.from_smiles(sub, targ, invert=case["invert"], strategy=case["strategy"],
+                                        **{k: v for k, v in kw.items() if k in ("canonicaliser", "explicit_h", "implicit_temp", "automorphism")})
+        else:
+            re = SynReactor(sub, targ, invert=case["invert"], strategy=case["strategy"], **kw)
+        host = re.graph.raw
+        rec["host"] = rc.enc_graph(host)
+        rule = re.rule
+        rec["rule"] = {"rc": rc.enc_graph(rule.rc.raw), "left": rc.enc_graph(rule.left.raw), "right": rc.enc_graph(rule.right.raw)}
+        maps = re.mappings
+        rec["flag"] = bool(re._flag_pattern_has_explicit_H)
+        rec["mappings"] = [graphio.mapping(m) for m in maps]
+        rec["map_order"] = [[[int(p), int(h)] for p, h in m.items()] for m in maps]
+        strat = Strategy.from_string(case["strategy"])
+        pg = rule.left.raw
+        rec["has_xh"] = bool(has_XH(pg))
+        if rec["has_xh"]:
+            rec["pattern"] = rc.enc_graph(h_to_implicit(pg))
+        glued, expl = [], []
+        for m in maps:
+            if rec["flag"]:
+                hg = copy.deepcopy(host)
+                for _, d in hg.nodes(data=True):
+                    d.setdefault("typesGH", rc._default_tg(d))
+                maps2, hexp = SynReactor._get_explicit_map(hg, m, rule.left.raw, strat, re.embed_threshold, False)
+                expl.append({"hexp": rc.enc_graph(hexp), "maps": [graphio.mapping(x) for x in maps2]})
+            batch = SynReactor._glue_graph(host, rule.rc.raw, m, rec["flag"], rule.left.raw, strat,
+                                           embed_threshold=re.embed_threshold, embed_pre_filter=False)
+            glued.append([rc.enc_graph(g) for g in batch])
+        rec["glued"] = glued
+        if rec["flag"]:
+            rec["explicit_path"] = expl
+        its_list = re.its_list
+        rec["its"] = [rc.enc_graph(g) for g in its_list]
+        rec["smarts_each"] = [SynReactor._to_smarts(copy.deepcopy(g)) for g in its_list]
+        rec["smarts_list"] = list(re.smarts_list)
+        rec["explicit_h"] = bool(re.explicit_h)
+    except rc._SoftTimeout:
+        raise
+    except Exception as e:
+        rec["status"] = "error:" + type(e).__name__
+        rec["error"] = str(e)[:300]
+    return rec
+
+
 # ------------------------------------------------------------------ evaluation
 class Eval:
     def __init__(self, ctx):
@@ -380,6 +665,11 @@ class Eval:
             d = {p: h for p, h in m}
             return [[p, d[p]] for p in order if p in d]
         rq.append((("decompose",), {"cmd": "reactor.decompose", "its": rule["rc"]}))
+        if "rule_check_tpl" in rec:
+            # clause (c) applied to the rule itself: the centre graph the reactor works with changes the bonds of the
+            # (oriented, hydrogen-normal) template -- independent of whether the substrate offers a match
+            rq.append((("rulec",), {"cmd": "reactor.spec", "host": rec["host"], "its": rule["rc"], "tpl": rec["rule_check_tpl"],
+                                    "invert": case["invert"]}))
         if case["invert"] and "inverted" in rec:
             rq.append((("invert",), {"cmd": "reactor.invert", "tpl": rec["tpl"]}))
         if "has_xh" in rec:
@@ -407,7 +697,7 @@ class Eval:
                             rq.append((("exh", flat + k), {"cmd": "reactor.explicit_h", "its": g}))
                 flat += len(batch)
         for k, its in enumerate(rec["its"][:MAX_ITS]):
-            rq.append((("spec", k), {"cmd": "reactor.spec", "host": rec["host"], "its": its, "tpl": rec["tpl"],
+            rq.append((("spec", k), {"cmd": "reactor.spec", "host": rec["host"], "its": its, "tpl": rec.get("tpl_spec") or rec["tpl"],
                                      "invert": case["invert"]}))
         return rq
 
@@ -422,6 +712,12 @@ class Eval:
             impl = _strip(rule[side], node_drop=("h_pairs",))
             if not same_graph(impl, d[side]):
                 stage_bad.append(("SynRule fragment %s != its_decompose(rule.rc)" % side, first_diff(impl, d[side])))
+        if ("rulec",) in ans:
+            rcs = ans[("rulec",)]
+            ctx.count("rule_level_c:%s" % rcs["c"])
+            if not rcs["c"]:
+                stage_bad.append(("reactor.rule.rc does not change the bonds of the (oriented) template",
+                                  f"changed bonds {rcs['nchg']} vs template {rcs['tnchg']}"))
         if ("invert",) in ans and not same_graph(rec["inverted"], ans[("invert",)]):
             stage_bad.append(("_invert_template", first_diff(rec["inverted"], ans[("invert",)])))
         if ("has_xh",) in ans:
@@ -508,7 +804,9 @@ class Eval:
                 self.violate("(b) returned reaction does not conserve hydrogens / charge", case,
                              {**where, "result_dH_dQ_halfunits": s["imb"], "template_dH_dQ_halfunits": s["timb"]},
                              classes=["rc_template_unbalanced"] if tpl_unbalanced else ())
-            if not s["c"]:
+            if rec.get("spec_c_skip"):
+                ctx.count("c_not_evaluated(explicit_h=False on a template with H2/H+/hydride)")
+            elif not s["c"]:
                 spec_bad = True
                 clash = self._round_inexact(rec, ans, k)
                 if clash:
@@ -578,7 +876,7 @@ def run_cases(ctx, cases, timeout, label):
 def _run_chunk(ctx, cases, timeout, label):
     ev = getattr(ctx, "_c03_eval", None) or Eval(ctx)
     ctx._c03_eval = ev
-    recs = rc.run_pool(cases, rc.reactor_case, timeout=timeout)
+    recs = rc.run_pool(cases, reactor_case_x, timeout=timeout)
     reqs, owners = [], []
     live = []
     for ci, (case, rec) in enumerate(zip(cases, recs)):
@@ -609,6 +907,16 @@ def _run_chunk(ctx, cases, timeout, label):
         ctx.case(canonical(case), nontrivial, sample)
 
 
+def _quiet_rdkit():
+    """The SMILES-level checks parse [H+] / [H-] in this process; RDKit's per-atom warnings are noise."""
+    try:
+        from rdkit import RDLogger
+
+        RDLogger.DisableLog("rdApp.warning")
+    except Exception:
+        pass
+
+
 def load_regress():
     out = []
     d = ROOT / "regress" / "C03"
@@ -634,6 +942,13 @@ def run(ctx):
         "the two in-place loops of _glue_graph are modelled as one simultaneous update (equal for injective matches and simple graphs)",
         "within a hydrogen-pair component _explicit_h iterates a Python set; the comparison is modulo the ids of the hydrogens it creates",
         "implementation exceptions and per-case timeouts return no reaction: counted, never violations",
+        "entry stream, explicit_h=False on an explicit-H template: the outputs keep hydrogens implicit, so clause (c) is evaluated "
+        "against the hydrogen-normal form of the template (every explicit hydrogen bonded to a heavy atom on both sides folded "
+        "into the typesGH counts of its neighbours; computed by the harness from the template graph alone, fold_explicit_h); "
+        "templates where that form is ambiguous (H2 / H+ / hydride) are not evaluated for (c) under this option and counted",
+        "entry stream, from_gml: the GML text is produced by synkit's its_to_gml (input builder, trusted as rsmi_to_its is); the "
+        "specification still compares the outputs with the original template graph",
+        "entry stream, graph_shuffled: ids and insertion order come from random.Random(skey) with skey drawn from ctx.rnd",
     ]
     ctx.gen_rule = (
         "regress/C03 first; corpus stream: vendored mapped reactions (ecoli, USPTO sample, hydrogen test set), template = reaction "
@@ -641,10 +956,17 @@ def run(ctx):
         "all/comp/bt, hydrogen mode per DESIGN 5a; quick = seeded sample of reactions, thorough = all; synthetic stream: random "
         "molecule-like substrate graphs (4-9 atoms, orders 1/1.5/2/3, charges, some optional attributes missing) with a template "
         "planted on a random connected part (bond order changes, bond formation incl. onto bonds the pattern omits, H/charge deltas "
-        "balanced or not), forward and mirrored-backward.")
+        "balanced or not), forward and mirrored-backward; entry stream: seeded sample of corpus reactions of <= 40 atoms "
+        "(quick 7 explicit + 9 implicit, thorough 40 + 60), substrate = own side (60%) or reactants+products together (40%), every template form (graph, str, synrule, "
+        "synrule_nocanon, from_smart, from_gml[explicit mode only]) once (thorough twice) per reaction, direction / centre-or-full "
+        "/ strategy uniform, substrate forms (smiles, graph, graph_shuffled, syngraph, syngraph_nocanon) round-robin, "
+        "from_smiles constructor for half of the SMILES substrates, explicit_h=False on 35% of the explicit-mode cases, "
+        "automorphism / embed_pre_filter / embed_threshold in {50, 5000} on 20% each, own canonicaliser on 25%; hand stream: 7 "
+        "fixed proton / hydride / H2 templates x centre/full x forward/backward, strategy uniform (thorough: all three).")
     ctx.nontrivial_rule = "distinct (template, substrate, direction, strategy, mode) with >=1 match and >=1 returned ITS"
     build_and_audit(ctx, ["SynKitProofs.Props.C03"], "SynKitProofs/Audit/C03.lean", THEOREMS)
 
+    _quiet_rdkit()
     timeout = 20.0 if ctx.quick else 60.0
     reg = load_regress()
     if reg:
@@ -668,6 +990,14 @@ def run(ctx):
         cases = corpus_cases(ctx, pool, pool, ["all", "comp", "bt"], 1)
         nsyn = 3000
     run_cases(ctx, cases, timeout, "corpus")
+    # entry points / options (reactions of at most 40 atoms so that the stream stays cheap)
+    small40 = [r for r in pool if r["n_atoms"] <= 40]
+    n_e, n_i, per_form = (7, 9, 1) if ctx.quick else (40, 60, 2)
+    ex = [r for r in small40 if r["mode"] == "explicit"]
+    im = [r for r in small40 if r["mode"] == "implicit"]
+    run_cases(ctx, entry_cases(ctx, ctx.rnd.sample(ex, min(n_e, len(ex))) + ctx.rnd.sample(im, min(n_i, len(im))), per_form),
+              timeout, "entry")
+    run_cases(ctx, hand_cases(ctx, not ctx.quick), timeout, "hand")
     syn = [synth_case(ctx.rnd) for _ in range(nsyn)]
     run_cases(ctx, syn, timeout, "synthetic")
     run_explicit_h_unit(ctx, 400 if ctx.quick else 4000)
@@ -692,6 +1022,7 @@ def replay(ctx, case):
             ctx.violation("implementation differs from the proven model at stage: _explicit_h (unit level)", c,
                           {"impl": a, "model": b}, no_input=True)
         return
+    _quiet_rdkit()
     c.setdefault("tag", "replay")
     c.setdefault("kind", "synthetic" if "tpl_graph" in c else "replay")
     run_cases(ctx, [c], 120.0, "replay")
